@@ -13,6 +13,8 @@
  R5 exhaustive  : every type_def the library loader accepts (except multi_band) is handled by _nf / _calc_nf; the
                   fall-through raises.
  R6 band        : Edfa.__call__ propagates the spectrum demuxed to its own band and returns it.
+ R8 dual stage  : _calc_nf: both stages evaluated with their own parameters at g1 = preamp flat-max gain and g2 = G - g1,
+                  NF = lin2db(10^(nf1/10) + 10^((nf2 - g1)/10)) (Friis), per-channel NF = average + interpolated ripple.
  R7 gain profile: the last refinement step of _gain_profile is the secant step x + (G - g(x))/slope on both sides; the
                   flat-amplifier shortcut returns the effective gain.
 """
@@ -460,5 +462,76 @@ def extract_x(e):
     return total if found else None
 
 
-RULES = [('R1.ase', r1_ase), ('R2.order', r2_order), ('R3.clamp', r3_clamp), ('R4.nf', r4_nf), ('R5.exhaustive', r5_exhaustive),
+def fld(p):
+    return Rat.of(mk_atom('fld', p))
+
+
+def r8_dual_stage(ctx):
+    """R8: a dual-stage amplifier is the cascade of its two stages (Friis): the first stage runs at its flat-max gain g1,
+    the second at g2 = G - g1, each evaluated with its own NF model parameters, and
+    NF = lin2db(10^(nf1/10) + 10^((nf2 - g1)/10)); single-stage types hand their own parameters and the effective gain to
+    _nf; the per-channel NF is the average plus the interpolated ripple."""
+    from ..vg import spec
+    repo = ctx.repo
+    E = edfa(repo)
+    f = repo.method(E, '_calc_nf')
+    ev = Evaluator(repo, f, types={'self': E}, no_inline={'_nf'}).run_function()
+    r = ev.ret()
+    s = site(f)
+    conds = gamma_conds(r)
+    dual = [c for c in conds if 'dual_stage' in c]
+    avg = [c for c in conds if c.startswith('truth(')]
+    if len(dual) != 1 or len(avg) != 1:
+        raise CannotAnalyse(f'_calc_nf: unforeseen conditions {sorted(conds)}')
+    P = lambda n: fld('self.params.' + n)     # noqa: E731
+    G = fld('self.effective_gain')
+    calls = [c for c in ev.calls if c.name == '_nf']
+    want = {
+        'preamp': ([P('preamp_type_def'), P('preamp_nf_model'), P('preamp_nf_fit_coeff'), P('preamp_gain_min'), P('preamp_gain_flatmax'),
+                    P('preamp_gain_flatmax')], True),
+        'booster': ([P('booster_type_def'), P('booster_nf_model'), P('booster_nf_fit_coeff'), P('booster_gain_min'), P('booster_gain_flatmax'),
+                     G - P('preamp_gain_flatmax')], True),
+        'single': ([P('type_def'), P('nf_model'), P('nf_fit_coeff'), P('gain_min'), P('gain_flatmax'), G], False),
+    }
+    found = {}
+    for c in calls:
+        a = list(c.args)
+        for name, (w, when) in want.items():
+            if len(a) == 6 and isinstance(a[0], Rat) and a[0].eq(w[0]):
+                found[name] = c
+                ok = all(isinstance(x, Rat) and x.eq(y) for x, y in zip(a, w)) and dict(c.pc).get(dual[0]) is when
+                ctx.check('R8.dual-stage', f'{s} {name} stage parameters', ok, key(f, f'stage|{name}'),
+                          f'the {name} stage is not evaluated with its own type, NF model, fit coefficients, gain range and gain '
+                          f'({"g1 = preamp flat-max gain" if name == "preamp" else "g2 = G - g1" if name == "booster" else "the effective gain"})',
+                          '; '.join(vkey(x)[:60] for x in a))
+    for name in want:
+        if name not in found:
+            ctx.bad('R8.dual-stage', f'{s} {name} stage', key(f, f'stage|{name}'), f'no _nf evaluation for the {name} stage')
+    if len(found) == 3:
+        def res(c):
+            return [at for at in atoms_of(r).values() if at.kind == 'fn' and at.name == 'item' and isinstance(at.args[0], Rat)
+                    and at.args[0].single_atom() is not None and at.args[0].single_atom().name.startswith('call:') and
+                    isinstance(at.args[0].single_atom().args[1], Rat) and at.args[0].single_atom().args[1].eq(c.args[0])
+                    and isinstance(at.args[1], Rat) and at.args[1].eq(C(0))]
+        n1, n2, n0 = res(found['preamp']), res(found['booster']), res(found['single'])
+        if not (n1 and n2 and n0):
+            raise CannotAnalyse('_calc_nf: results of the _nf calls not found in the returned value')
+        b = {'nf1': Rat.of(n1[0]), 'nf2': Rat.of(n2[0]), 'g1': P('preamp_gain_flatmax'), 'ripple': fld('self.interpol_nf_ripple')}
+        w_d = spec('10 * log10(10 ** (nf1 / 10) + 10 ** ((nf2 - g1) / 10))', b)
+        got_avg = restrict(r, {dual[0]: True, avg[0]: True})
+        got = restrict(r, {dual[0]: True, avg[0]: False})
+        ctx.check('R8.dual-stage', f'{s} cascade formula', got_avg.eq(w_d), key(f, 'friis'),
+                  'the dual-stage noise figure is not lin2db(db2lin(nf1) + db2lin(nf2 - g1)) (Friis): the second stage noise is not '
+                  'referred to the input through the first stage gain', vkey(got_avg)[:300])
+        ctx.check('R8.dual-stage', f'{s} ripple added (dual)', got.eq(w_d + b['ripple']), key(f, 'ripple|dual'),
+                  'the per-channel NF of a dual-stage amplifier is not the cascade NF plus the interpolated ripple')
+        g0 = restrict(r, {dual[0]: False, avg[0]: False})
+        ctx.check('R8.dual-stage', f'{s} ripple added (single)', g0.eq(Rat.of(n0[0]) + b['ripple']), key(f, 'ripple|single'),
+                  'the per-channel NF of a single-stage amplifier is not the model NF plus the interpolated ripple')
+        ctx.check('R8.dual-stage', f'{s} average', restrict(r, {dual[0]: False, avg[0]: True}).eq(Rat.of(n0[0])), key(f, 'avg'),
+                  'avg=True does not return the model NF without ripple')
+    ctx.need('R8.dual-stage', 7)
+
+
+RULES = [('R8.dual-stage', r8_dual_stage), ('R1.ase', r1_ase), ('R2.order', r2_order), ('R3.clamp', r3_clamp), ('R4.nf', r4_nf), ('R5.exhaustive', r5_exhaustive),
          ('R6.band', r6_band), ('R7.gain-profile', r7_gain_profile)]
